@@ -2,6 +2,7 @@
 From Coq Require Import List ZArith NArith String Bool.
 Import ListNotations.
 From Verif Require Import Common.V Common.Base Model.MediaPath.
+From Verif Require Model.Codec Model.MediaBind.
 Open Scope Z_scope.
 
 Inductive sec : Type := Sec (media : string) (attrs : list (string * string)).
@@ -22,7 +23,19 @@ Definition run_details (secs : list sec) : V :=
 Inductive eng_in : Type :=
   Eng (nv : bool) (negv : list (Z * string)) (na : bool) (nega : list (Z * string))
       (regv rega : list (Z * string)).
-Inductive wire : Type := Wire (mid : string) (pt : Z) (hay : list (Z * Z)).
+(* a codec as the harness prints it: payload type, mime type, clock rate,
+   channels, SDPFmtpLine *)
+Inductive cdc : Type := Cdc (pt : Z) (mime : string) (clock channels : Z) (line : string).
+Definition codec_of (c : cdc) : Codec.codec :=
+  let '(Cdc pt mime clock channels line) := c in
+  Codec.mkCodec mime (Z.to_N clock) (Z.to_N channels) line [] (Z.to_N pt).
+
+(* per sending mid: the payload type seen on the wire, the track's codec
+   capability (the needle of Bind's search) and the sender's negotiated codec
+   list of that kind (the haystack), both in full: the match class of every
+   candidate is computed by the model (Model/MediaBind.v over Model/Codec.v and
+   Model/Fmtp.v) *)
+Inductive wire : Type := Wire (mid : string) (pt : Z) (needle : cdc) (hay : list cdc).
 Inductive media_in : Type := MediaIn (secs : list sec) (e : eng_in) (wires : list wire).
 
 Definition codecs_of (l : list (Z * string)) : list codec :=
@@ -36,7 +49,7 @@ Definition engine_of (e : eng_in) : engine :=
 Fixpoint find_wire (mid : string) (ws : list wire) : option wire :=
   match ws with
   | [] => None
-  | (Wire m pt hay) as w :: r => if String.eqb m mid then Some w else find_wire mid r
+  | (Wire m pt needle hay) as w :: r => if String.eqb m mid then Some w else find_wire mid r
   end.
 
 Definition Vcodec (c : codec) : V := VL [VN (cd_pt c); VS (cd_mime c)].
@@ -50,10 +63,25 @@ Definition run_media (i : media_in) : V :=
   VL (map (fun d =>
         match find_wire (td_mid d) wires with
         | None => VL [VS "no-sender-for-mid"]
-        | Some (Wire _ pt hay) =>
+        | Some (Wire _ pt needle hay) =>
             let rt := remote_track_of d eng (Z.to_N pt) in
-            let hayN := map (fun p => (Z.to_N (fst p), Z.to_N (snd p))) hay in
             VL (Vtd false d ++
                 [VO Vcodec (rt_codec rt);
-                 VO VN (option_map (fun b => k_pt (write_rtp b empty_pkt)) (bind (td_ssrc d) hayN))])
+                 VO VN (option_map (fun b => k_pt (write_rtp b empty_pkt))
+                          (MediaBind.bind_codec (td_ssrc d) (codec_of needle) (map codec_of hay)))])
         end) (track_details (map sec_pair secs))).
+
+(* suite "bind": a TrackLocalStaticRTP of the needle's capability bound to a
+   context whose CodecParameters() is the haystack (no network):
+     [match class of codecParametersFuzzySearch (0 none, 1 partial, 2 exact);
+      payload type of the codec it returns;
+      payload type / SSRC of a packet written through the binding, if bound] *)
+Definition run_bind (p : Z * cdc * list cdc) : V :=
+  let '(ssrc, needle, hay) := p in
+  let n := codec_of needle in
+  let h := map codec_of hay in
+  let '(c, m) := Codec.fuzzy_search n h in
+  VL [VZ (match m with Codec.MNone => 0 | Codec.MPartial => 1 | Codec.MExact => 2 end);
+      VN (Codec.c_pt c);
+      VO (fun b => VL [VN (k_pt (write_rtp b empty_pkt)); VN (k_ssrc (write_rtp b empty_pkt))])
+         (MediaBind.bind_codec (Z.to_N ssrc) n h)].
